@@ -31,7 +31,9 @@ RULE = ("seeded generator over classes {reorder (G = F permuted), near (G = F + 
         "(points on the diagonal mixed in), neg (negative coordinates), generic, scale (x 2^-6..2^6), empty, single, "
         "far (both diagrams translated by 1e4..1e8 / 2^14..2^27 along the diagonal, checked against the formula and "
         "the untranslated value), tinymove (one point of a multi-point diagram moved by 1e-6..4e-5), chain (F, F+d, "
-        "F+2d: tight triangle), smallscale (coordinates ~1e-4), bigsigma (sigma 1e2..1e6)} x "
+        "F+2d: tight triangle), smallscale (coordinates ~1e-4), bigsigma (sigma 1e2..1e6), intsigma (sigma passed as "
+        "Python int / np.int64, compared with the float call), sweep (history in one process: the same diagrams at "
+        "sigma 0.1, 0.4, 1, 3, 0.4, 0.1 in sequence, every value against the formula, heat(F,F)=0 each time)} x "
         "sigma in {0.01, 0.4, 5, random}; 1-5 points per diagram; every case also carries a third diagram, a shift, "
         "a permutation and diagonal points for the metamorphic relations. Non-trivial: both diagrams non-empty with "
         "at least one off-diagonal point each and (>= 2 points in one of them or a reordering/near-equality class); "
@@ -139,21 +141,33 @@ def _case(rng, cls):
             rng.shuffle(G)
         F, G, H = ([[b + T, d + T] for b, d in X] for X in (F, G, H))
         shift = -T
+    skind, pre = "float", []
+    if cls == "intsigma":
+        # sigma handed over as a Python int / numpy integer: heat(F, G, 1) must equal heat(F, G, 1.0)
+        sigma = float(rng.choice([1, 1, 2, 3, 5]))
+        skind = rng.choice(["int", "npint"])
+    elif cls == "sweep":
+        # a history inside ONE process: the same diagrams at several sigmas in sequence, then the case's sigma;
+        # every value is checked against the formula independently of the order of the calls
+        seq = [0.1, 0.4, 1.0, 3.0, 0.4, 0.1]
+        k = rng.randrange(len(seq))
+        seq = seq[k:] + seq[:k]
+        pre, sigma = seq[:-1], seq[-1]
     xs = [rng.uniform(-2, 4) for _ in range(rng.randint(1, 3))]
     if cls == "far":
         xs = [x - shift for x in xs]
     elif cls == "smallscale":
         xs = [x * 1e-4 for x in xs]
     return {"cls": cls, "F": F, "G": G, "H": H, "sigma": sigma, "perm": perm, "shift": shift,
-            "diag": [[x, x] for x in xs], "diag_pos": [rng.random() for _ in xs]}
+            "diag": [[x, x] for x in xs], "diag_pos": [rng.random() for _ in xs], "skind": skind, "pre": pre}
 
 
 CLASSES = ["reorder", "near", "diag", "neg", "generic", "scale", "empty", "single",
-           "far", "far", "tinymove", "chain", "smallscale", "bigsigma", "reorder", "far"]
+           "far", "far", "tinymove", "chain", "smallscale", "bigsigma", "reorder", "far", "intsigma", "sweep"]
 
 
 def generate(rng, tier):
-    n_cases = 32 if tier == "quick" else 800
+    n_cases = 36 if tier == "quick" else 810
     cases = [_case(rng, CLASSES[i % len(CLASSES)]) for i in range(n_cases)]
     # every sigma of the design with a reordering
     for s in SIGMAS:
@@ -177,7 +191,7 @@ def corpus():
     if d.is_dir():
         for f in sorted(d.glob("*.json")):
             j = json.loads(f.read_text())
-            cs.append({k: j[k] for k in ("F", "G", "H", "sigma", "perm", "shift", "diag", "diag_pos")})
+            cs.append({k: j[k] for k in ("F", "G", "H", "sigma", "perm", "shift", "diag", "diag_pos", "skind", "pre") if k in j})
     return cs
 
 
@@ -211,8 +225,17 @@ def impl_run(cases):
     for c in cases:
         def call():
             F, G, H, s = c["F"], c["G"], c["H"], c["sigma"]
+            kind = c.get("skind", "float")
+            if kind == "int":
+                s = int(s)
+            elif kind == "npint":
+                s = np.int64(int(s))
             t = c["shift"]
-            o = {"v": f(heat(arr(F), arr(G), s)),
+            # the history first (same process, same diagram contents, other sigmas), incl. a diagram against itself
+            hist = [[f(heat(arr(F), arr(G), ps)), f(heat(arr(F), arr(F), ps))] for ps in c.get("pre", [])]
+            o = {"hist": hist, "sf": f(heat(arr(F), arr(G), float(c["sigma"]))),
+                 "self": f(heat(arr(F), arr(F), s)),
+                 "v": f(heat(arr(F), arr(G), s)),
                  "sym": f(heat(arr(G), arr(F), s)),
                  "perm": f(heat(arr(F), arr([F[i] for i in c["perm"]]), s)),
                  "dg": f(heat(arr(_with_diag(F, c["diag"], c["diag_pos"])), arr(_with_diag(G, c["diag"][::-1], c["diag_pos"])), s)),
@@ -296,12 +319,28 @@ def predicate(c, o):
             return False, "nan: heat value %s = %s is not a finite number" % (k, o[k])
         if o[k] < 0:
             return False, "negative: heat value %s = %r" % (k, o[k])
+    for ps, hv in zip(c.get("pre", []), o.get("hist", [])):
+        if not _num(hv[0]) or not _num(hv[1]):
+            return False, "nan: history value at sigma %r is %s" % (ps, hv)
+        hr, htol = _rad_tol(F, G, ps)
+        if abs(Decimal(hv[0]) ** 2 - max(hr, Decimal(0))) > htol:
+            return False, "history: heat^2 at sigma %r (call sequence %s) = %r but the formula gives %s" % (
+                ps, c["pre"], hv[0] ** 2, max(hr, Decimal(0)))
+        if Decimal(hv[1]) ** 2 > _rad_tol(F, F, ps)[1]:
+            return False, "history: heat(F, F) at sigma %r = %r, not 0" % (ps, hv[1])
+    for k in ("sf", "self"):
+        if k in o and not _num(o[k]):
+            return False, "nan: heat value %s = %s is not a finite number" % (k, o[k])
     r, tol2 = _rad_tol(F, G, s)
     r0 = max(r, Decimal(0))
     v2 = Decimal(o["v"]) ** 2
     if abs(v2 - r0) > tol2:
         return False, "formula: heat^2 = %r but k(F,F)+k(G,G)-2k(F,G) = %s (tolerance %s)" % (float(v2), r0, tol2)
     e = float(tol2.sqrt())
+    if "sf" in o and abs(Decimal(o["sf"]) ** 2 - v2) > 2 * tol2:
+        return False, "sigma-type: heat with sigma passed as %s = %r, as float = %r" % (c.get("skind"), o["v"], o["sf"])
+    if "self" in o and Decimal(o["self"]) ** 2 > _rad_tol(F, F, s)[1]:
+        return False, "self: heat(F, F) = %r, not 0" % o["self"]
     if abs(Decimal(o["sym"]) ** 2 - v2) > 2 * tol2:
         return False, "symmetry: heat(G,F) = %r, heat(F,G) = %r" % (o["sym"], o["v"])
     _, tp = _rad_tol(F, F, s)
@@ -386,5 +425,8 @@ def shrink_candidates(c):
                 yield d
     if len(c["diag"]) > 1:
         d = dict(c); d["diag"] = c["diag"][:1]; d["diag_pos"] = c["diag_pos"][:1]; yield d
-    if c["sigma"] != 0.4:
+    pre = c.get("pre", [])
+    for j in range(len(pre)):
+        d = dict(c); d["pre"] = pre[:j] + pre[j + 1:]; yield d
+    if c["sigma"] != 0.4 and c.get("skind", "float") == "float" and not pre:
         d = dict(c); d["sigma"] = 0.4; yield d
